@@ -160,6 +160,29 @@ func c14Canon(c *core.Ctx) {
 			}
 			c.Check(in.fn+":"+in.sentinel+"?"+in.name, "canon-guard", found, pos, "%s must hand out %s under the rejecting condition %q", shortFn(fn), in.sentinel, in.name)
 		}
+		// the canonical test applies to every value a typed reader accepts: in the readers that fetch their bytes with one call and test the
+		// bytes afterwards, that fetch (whose result the guard inspects) lies on every path to a successful return — no fast path around it
+		for _, pr := range [][2]string{{"decodeBigInt", "Bytes"}, {"decodeByteArray", "Kind"}} {
+			fn := resolve(pr[0])
+			src := c.Method(stream, pr[1])
+			calls := core.CallsIn(fn, src)
+			ok := len(calls) >= 1
+			for _, r := range core.Returns(fn) {
+				if core.ClassifyReturn(r, nil, nil) == core.RetFailure {
+					continue
+				}
+				dom := false
+				for _, ci := range calls {
+					if core.Dominates(ci, r) {
+						dom = true
+					}
+				}
+				if !dom {
+					ok = false
+				}
+			}
+			c.Check(pr[0]+":no-path-around-the-canonical-test", "guard-scope", ok, fn.Pos(), "every successful return of %s comes after the Stream.%s call whose result the canonical-form test inspects", shortFn(fn), pr[1])
+		}
 		c.Floor("ErrCanonSize", per["ErrCanonSize"], 5)
 		c.Floor("ErrCanonInt", per["ErrCanonInt"], 3)
 		c.Floor("ErrElemTooLarge", per["ErrElemTooLarge"], 1)
